@@ -10,8 +10,10 @@ package main
 // An unrecognisable shape is an error (a broken obligation of C14).
 
 import (
+	"bytes"
 	"fmt"
 	"go/ast"
+	"go/printer"
 	"go/token"
 	"strconv"
 	"strings"
@@ -151,7 +153,7 @@ func c14GenFilter(x *Ctx) (string, interface{}, error) {
 	if err != nil {
 		return "", nil, err
 	}
-	var cc, che *ast.FuncDecl
+	var cc, che, cp *ast.FuncDecl
 	for _, d := range f.Decls {
 		if fd, ok := d.(*ast.FuncDecl); ok && fd.Body != nil {
 			switch fd.Name.Name {
@@ -159,6 +161,8 @@ func c14GenFilter(x *Ctx) (string, interface{}, error) {
 				cc = fd
 			case "convertHasExpression":
 				che = fd
+			case "convertPath":
+				cp = fd
 			}
 		}
 	}
@@ -341,6 +345,38 @@ func c14GenFilter(x *Ctx) (string, interface{}, error) {
 			}
 		}
 	}
+	// ---- convertPath: every statement, in order, in source notation (the function is short and
+	// every statement of it matters: namespace taken from the ORIGINAL key, GetJSONPath, the "$."
+	// prefix stripped, gid renamed to _id, and a key outside the current namespace addressed below
+	// "marks.<namespace>.").  Props.C14.filter_path_matches_source compares with the MODEL's reading.
+	if cp == nil {
+		return "", nil, fmt.Errorf("convertPath not found")
+	}
+	pathStmts := []string{}
+	for _, st := range cp.Body.List {
+		var buf bytes.Buffer
+		if err := printer.Fprint(&buf, token.NewFileSet(), st); err != nil {
+			return "", nil, fmt.Errorf("convertPath: %v", err)
+		}
+		pathStmts = append(pathStmts, strings.Join(strings.Fields(buf.String()), " "))
+	}
+	keyUses := 0
+	ast.Inspect(cc.Body, func(n ast.Node) bool {
+		if call, ok := n.(*ast.CallExpr); ok {
+			if id, ok := call.Fun.(*ast.Ident); ok && id.Name == "convertPath" {
+				keyUses++
+				if len(call.Args) != 1 {
+					keyUses += 100
+				} else if sel, ok := call.Args[0].(*ast.SelectorExpr); !ok || sel.Sel.Name != "Key" {
+					keyUses += 100
+				}
+			}
+		}
+		return true
+	})
+	if keyUses != 1 {
+		return "", nil, fmt.Errorf("convertCondition: the field name is not convertPath(cond.Key) exactly once")
+	}
 	out := "-- GENERATED by tools/extract (c14_filter.go) from mongo/has_evaluator.go; do not edit\n"
 	out += "namespace GripGen.MongoFilter\n"
 	out += "/-- convertCondition: (condition, guard in front of the operator, operator document) -/\n"
@@ -358,7 +394,9 @@ func c14GenFilter(x *Ctx) (string, interface{}, error) {
 	out += "/-- convertHasExpression: the And and the Or arm (no member / negated / plain) -/\n"
 	out += "def andArm : List String := " + c11LeanStrings(junction["And"]) + "\n"
 	out += "def orArm : List String := " + c11LeanStrings(junction["Or"]) + "\n"
+	out += "/-- convertPath: its statements in order -/\n"
+	out += "def path : List String := " + c11LeanStrings(pathStmts) + "\n"
 	out += "end GripGen.MongoFilter\n"
-	facts := map[string]interface{}{"ops": rows, "wrap": tail, "and": junction["And"], "or": junction["Or"]}
+	facts := map[string]interface{}{"path": pathStmts, "ops": rows, "wrap": tail, "and": junction["And"], "or": junction["Or"]}
 	return out, facts, nil
 }
